@@ -150,7 +150,7 @@ type walDrv struct {
 	snapFiles                                          []wSnapFile
 	snapX, nSnapImgs                                   int
 	bySnapMode                                         map[string]int
-	lifeX, nLives                                      int
+	lifeX, nLives, nZeroLives                          int
 	nConcBatches                                       int
 	maxEntBytes                                        int
 	lastEnt, maxMark                                   int
@@ -662,15 +662,26 @@ func (d *walDrv) emitImage(kind string, off int64, segs []*wSeg, tailImg []byte,
 		d.bySnapMode[smode]++
 	}
 	ver := d.verify(d.imgDir, snap)
-	res, rep, _ := d.reopen(d.imgDir, snap, false)
-	res2 := res
 	life := wLife{Ents: []wEnt{}, Res: wRes{Ents: []wEnt{}}}
 	damaged := kind == "trunc" || kind == "zfill" || kind == "sector"
-	wantLife := res.Err == "" && ((damaged && (d.lifeAll || d.rng.Intn(2) == 0)) || (!damaged && d.rng.Intn(6) == 0))
+	planLife := (damaged && (d.lifeAll || d.rng.Intn(2) == 0)) || (!damaged && d.rng.Intn(6) == 0)
+	// half of the second lives go on with the very WAL object the first reopen returned (its
+	// encoder continues the decoder's CRC), the other half reopen once more before saving
+	sameWAL := planLife && d.rng.Intn(2) == 0
+	res, rep, ww0 := d.reopen(d.imgDir, snap, sameWAL)
+	res2 := res
+	wantLife := res.Err == "" && planLife
+	if !wantLife && ww0 != nil {
+		ww0.Close()
+		ww0 = nil
+	}
 	if wantLife {
-		// a second life: reopen, go on saving (byte-identical re-sends of entries the crash took,
-		// fewer of them and without a hard state, or fresh entries), close, reopen once more
-		r2, _, ww := d.reopen(d.imgDir, snap, true)
+		// a second life: go on saving (byte-identical re-sends of entries the crash took, fewer of
+		// them and without a hard state, or fresh entries, some mostly zero bytes), close, reopen
+		r2, ww := res, ww0
+		if ww == nil {
+			r2, _, ww = d.reopen(d.imgDir, snap, true)
+		}
 		res2 = r2
 		if r2.Err == "" && ww != nil {
 			var ents []raftpb.Entry
@@ -707,8 +718,22 @@ func (d *walDrv) emitImage(kind string, off int64, segs []*wSeg, tailImg []byte,
 				if k := len(r2.Ents); k > 0 && r2.Ents[k-1].T > term {
 					term = r2.Ents[k-1].T
 				}
+				zeroHeavy := d.rng.Intn(2) == 0
 				for j := 0; j < 1+d.rng.Intn(2); j++ {
 					d.lifeX++
+					if zeroHeavy {
+						// a payload that is mostly zero bytes: at least one whole 512-byte sector of the
+						// record reads as zeros although nothing is torn
+						e := d.entry(wEnt{start + j, term, 1<<20 + d.lifeX}, 1300+d.rng.Intn(900))
+						delete(d.byHash, sha1.Sum(e.Data))
+						for q := 8; q < len(e.Data)-8; q++ {
+							e.Data[q] = 0
+						}
+						d.byHash[sha1.Sum(e.Data)] = 1<<20 + d.lifeX
+						ents = append(ents, e)
+						d.nZeroLives++
+						continue
+					}
 					ents = append(ents, d.entry(wEnt{start + j, term, 1<<20 + d.lifeX}, 20+d.rng.Intn(300)))
 				}
 			}
@@ -1976,6 +2001,6 @@ func walsim(args []string) error {
 	tw.Close()
 	summary(map[string]interface{}{"driver": "walsim", "part": *part, "histories": d.nHist, "sim_histories": nsim,
 		"calls": d.nCalls, "cuts": d.nCuts, "restarts": d.nRestarts, "images": d.nImages, "by_kind": d.byKind,
-		"by_tail": d.byTail, "by_outcome": d.byOutcome, "repaired": d.nRepaired, "big_entries": d.nBigEnts, "segments_purged": d.nPurged, "snapshot_dir_images": d.nSnapImgs, "by_snapshot_damage": d.bySnapMode, "second_lives": d.nLives, "concurrent_batches": d.nConcBatches, "releases": d.nReleases, "syncs": d.nSyncs, "max_entry_bytes": d.maxEntBytes, "events": tw.N})
+		"by_tail": d.byTail, "by_outcome": d.byOutcome, "repaired": d.nRepaired, "big_entries": d.nBigEnts, "segments_purged": d.nPurged, "snapshot_dir_images": d.nSnapImgs, "by_snapshot_damage": d.bySnapMode, "second_lives": d.nLives, "second_life_zero_heavy_entries": d.nZeroLives, "concurrent_batches": d.nConcBatches, "releases": d.nReleases, "syncs": d.nSyncs, "max_entry_bytes": d.maxEntBytes, "events": tw.N})
 	return nil
 }
